@@ -32,7 +32,12 @@ def run_check(prop, root, tier="quick"):
     rep.engine_free = set(getattr(mod, "ENGINE_FREE", ()))
     rep.idiom_exempt = set(getattr(mod, "IDIOM_GUARD_EXEMPT", ()))
     rep.needs_all_runs = set(getattr(mod, "NEEDS_ALL_RUNS", ()))
-    mod.check(ctx, rep, tier)
+    try:
+        mod.check(ctx, rep, tier)
+    except core.AnalysisError as e:
+        # obligations decided before the analysis gave up are kept (a violation found is a violation)
+        e.partial = rep
+        raise
     rep.engine_guard()
     rep.idiom_guard()
     return rep
@@ -87,6 +92,7 @@ def main(argv):
             selftest = st.run(prop, root)
     except core.AnalysisError as e:
         errors.append(str(e))
+        rep = getattr(e, "partial", rep)
     except Exception as e:  # a traceback must not look like a violation
         errors.append("internal error: {}: {}".format(type(e).__name__, e))
         traceback.print_exc(file=sys.stdout)
